@@ -112,7 +112,7 @@ def build(case):
                     out.append('[%s][]' % target if x[2] == 'implicit' else '[%s]' % target)
                 refs.append((text, 'head', i))
             elif k == 'tref':
-                if case['table'] and mode != 'no_labels':
+                if case['table']:
                     reftext = TABCAPS[case.get('tabcap', 0)][1]
                     out.append('[%s][]' % reftext)
                     refs.append((reftext, 'table', 0))
@@ -383,7 +383,7 @@ def check(case, ctx):
                     # (was a known finding until the repair of the title-based cross-references under EXT_RANDOM_LABELS; the signature is kept)
                     raise fail('xref:wrong-target:random-labels', 'cross-reference %r links to %r, the heading carries the random id %r' % (text, a.get('href'), want))
                 raise fail('xref:wrong-target:%s' % kind, 'cross-reference %r links to %r, the target carries %r' % (text, a.get('href'), want))
-    if case['table'] and mode != 'no_labels' and not any(el.get('id') for el in root.iter('table')):
+    if case['table'] and not any(el.get('id') for el in root.iter('table')):
         raise fail('table:no-id', 'captioned table carries no id')
     # every remaining internal href must resolve too
     for a in root.iter('a'):
